@@ -1,4 +1,5 @@
 import LlgoVerif.Lemmas.TypeStr
+import LlgoVerif.Lemmas.TypeDesc
 /-!
 # C15 — reflect describes types as Go does: the COMPILER-EMITTED half
 
@@ -101,5 +102,84 @@ theorem fields_faithful (name : Str) (pkg : Option Str) (emb : Bool) (tag : Str)
     fieldTable (.cons name pkg emb tag t r) = (name, tag, emb) :: fieldTable r ∧
     (fieldTable (.cons name pkg emb tag t r)).length = (FList.cons name pkg emb tag t r).length := by
   exact ⟨rfl, fieldTable_length _⟩
+
+/-! ## where the run-time library looks for what the compiler wrote (`Model/TypeDesc.lean`) -/
+
+/-- **The uncommon part is found where it was put**: for every type, `(*abi.Type).Uncommon()` (which only sees
+    `Kind()`) assumes exactly the header `abiType` emitted in front of `uncommonType` — the same descriptor type, hence
+    the same byte offset, for all nine layouts (a chantype is one word longer than a ptrtype / slicetype, an arraytype
+    two, maptype / functype five).  `NumMethod`, `Method(i)`, `PkgPath`, `Implements`, `NewItab` all start here. -/
+theorem uncommon_found_where_emitted (env : Env) (uh : Nat → Header) (hu : ∀ d, uh d = emitHeader (env.underKind d))
+    (t : GoType) :
+    readHeader (kindOf env t) = runtimeNameC uh t ∧ readUncommonOffset (kindOf env t) = emitUncommonOffset uh t := by
+  have h : readHeader (kindOf env t) = runtimeNameC uh t := by
+    rw [runtimeName_by_kind env uh hu t]; cases kindOf env t <;> rfl
+  exact ⟨h, by simp [readUncommonOffset, emitUncommonOffset, h]⟩
+
+/-- the hypothesis is satisfiable: declaration 1 = `type Done chan struct{}`; its uncommon part sits 88 bytes in,
+    8 bytes further than behind a ptrtype -/
+example :
+    let env : Env := { pkgName := fun _ => ['p'], underStar := fun _ => false, underKind := fun _ => .chan,
+                       underVariadic := fun _ => false, underClosure := fun _ => false }
+    (∀ d, (fun _ => Header.chan) d = emitHeader (env.underKind d)) ∧
+    emitUncommonOffset (fun _ => Header.chan) (.named 1 (some ['p']) ['D', 'o', 'n', 'e'] .pkg .nil) = 88 ∧
+    readUncommonOffset .pointer = 80 := by
+  refine ⟨fun _ => rfl, by decide, by decide⟩
+
+/-- **The receiver word of an interface method call**: for every type, `DirectIfaceData` (a kind list in the run-time
+    library) answers "box the data word" exactly when the compiler stored the value IN the data word
+    (`directIfaceType`, recursive through one-element arrays and one-field structs) and the value is not itself the
+    pointer receiver.  In particular every kind the compiler can mark direct is on the run-time list: `[1]*T`,
+    `[1]chan T`, `struct{ p *T }`, `[1]struct{ m map[K]V }` …  Otherwise a value-receiver method called through an
+    interface is handed the POINTEE as its receiver. -/
+theorem directIfaceData_spec (env : Env) (ud : Nat → Bool) (hd : ∀ d, ud d = true → directKind (env.underKind d) = true)
+    (t : GoType) :
+    directIfaceData (kindOf env t) (directIfaceTypeC ud t) = needsBoxedReceiver (kindOf env t) (directIfaceTypeC ud t) := by
+  cases hdir : directIfaceTypeC ud t with
+  | false => simp [directIfaceData, needsBoxedReceiver]
+  | true =>
+    have hk := direct_kinds env ud hd t hdir
+    revert hk
+    cases kindOf env t <;> simp [directIfaceData, needsBoxedReceiver, directKind]
+
+/-- satisfiable and not vacuous: `type Cell [1]*node` (declaration 1) is direct, of kind array, and must be boxed -/
+example :
+    let env : Env := { pkgName := fun _ => ['p'], underStar := fun _ => false, underKind := fun _ => .array,
+                       underVariadic := fun _ => false, underClosure := fun _ => false }
+    let ud : Nat → Bool := fun _ => directIfaceTypeC (fun _ => false) (.array 1 (.pointer (.basic .int)))
+    (∀ d, ud d = true → directKind (env.underKind d) = true) ∧
+    directIfaceData (kindOf env (.named 1 (some ['p']) ['C'] .pkg .nil)) (directIfaceTypeC ud (.named 1 (some ['p']) ['C'] .pkg .nil)) = true := by
+  refine ⟨fun _ _ => rfl, by decide⟩
+
+/-- **Field visibility is what Go reports**: for every struct type written in a package `P` (go/types: each field with
+    a non-exported name — embedded ones are named after their type: `base`, `*base`, `error`, an alias — belongs to
+    `P`), the `StructField.PkgPath` reflect derives from the emitted `StructType.PkgPath_` is Go's for EVERY field —
+    provided reflect's test of the name (`exported`) is the one go/types used.  So `IsExported()` is false exactly
+    for the non-exported names, also when the only such fields are embedded ones. -/
+theorem field_pkgpath_faithful (exported : Str → Bool) (P : Str) (fs : FList) (h : fieldsOfPkg exported P fs = true) :
+    reflectFieldPkgPaths exported fs = goFieldPkgPaths fs := by
+  unfold reflectFieldPkgPaths
+  rcases structPkgPath_cases exported P fs h with hp | hp
+  · rw [hp]; exact derive_of_pkg exported P fs h
+  · rw [hp]; exact derive_of_pkg exported P fs h
+
+/-- satisfiable by `struct{ base; Addr string }` of package `vm` (the only non-exported field is the embedded one) -/
+example : fieldsOfPkg asciiExported ['v', 'm']
+    (.cons ['b', 'a', 's', 'e'] (some ['v', 'm']) true [] (.named 1 (some ['v', 'm']) ['b', 'a', 's', 'e'] .pkg .nil)
+      (.cons ['A', 'd', 'd', 'r'] none false [] (.basic .string) .nil)) = true := by decide
+
+/-- **The hypothesis on `exported` matters** (full statement with llgo's own test `abi.IsExported`, which looks at one
+    ASCII byte): a field whose exported name starts with a non-ASCII upper-case letter (`Ä`) is given the struct's
+    package path, i.e. reflect calls it unexported. -/
+def field_pkgpath_ascii : Prop :=
+  ∀ (goExported : Str → Bool) (P : Str) (fs : FList), goExported ['Ä'] = true → fieldsOfPkg goExported P fs = true →
+    reflectFieldPkgPaths asciiExported fs = goFieldPkgPaths fs
+
+theorem field_pkgpath_ascii_counterexample : ¬ field_pkgpath_ascii := by
+  intro h
+  have := h (fun s => s == ['Ä']) ['v', 'm']
+    (.cons ['Ä'] none false [] (.basic .int) (.cons ['b'] (some ['v', 'm']) false [] (.basic .int) .nil)) (by decide) (by decide)
+  revert this
+  decide
 
 end LlgoVerif.Types
